@@ -231,6 +231,11 @@ structure CacheSt where
   parkedInsert : Option (Nat × String × Nat) := none
   /-- the insert being replayed is the second half of a split insert: no closed-check -/
   bodyOnly : Bool := false
+  /-- a step of a composite action of the asynchronous flavour: the implementation showed nothing at
+  this point, so nothing is compared and the model is not re-synchronised -/
+  mute : Bool := false
+  /-- callbacks the model made during muted steps, to be compared at the next observed step -/
+  pendingCbs : List CB := []
 
 def residentVals (s : CSnap) : List Nat := s.items.map fun (_, _, v, _, _) => v
 
@@ -313,6 +318,12 @@ def noteCallbacks (g : Ghost) (cbs : List CB) : Ghost :=
 /-- common tail of every state-reporting line: compare, monitor, resync -/
 def finishStep (st : CacheSt) (tl : Tally) (c' : Cache) (what : String) (cbsModel : List CB)
     (cbsImpl : List CB) (snap : CSnap) (g : Ghost) (quiescentExtra : Bool := true) : CacheSt × Tally :=
+  if st.mute then
+    -- no observation here: evolve the model and the ghost, remember the callbacks
+    ({ st with c := some { c' with cbs := [] }, g := { g with prev := st.g.prev }, pendingCbs := st.pendingCbs ++ cbsModel }, tl)
+  else
+  let cbsModel := st.pendingCbs ++ cbsModel
+  let st := { st with pendingCbs := [] }
   let tl := if cbsModel == cbsImpl then tl
     else tl.divergeAt s!"{what}.callbacks" (showCbs cbsModel) (showCbs cbsImpl)
   let tl := compareCSnap tl (modelSnap c') snap what
@@ -343,6 +354,23 @@ def sameItem (m : Item) (i : Item) : Bool :=
   match m, i with
   | .wait _, .wait _ => true
   | a, b => a == b
+
+/-- the answer text of an unobserved sub-step of a composite action: the snapshot tokens are kept (so
+that the line parses), the answer proper and the callbacks are replaced -/
+def muteAns (ans : String) (lead : String) : String :=
+  let toks := (splitWs ans).filter fun t =>
+    !(t.startsWith "ret=" || t.startsWith "ok=" || t.startsWith "desc=" || t.startsWith "cbs=")
+  lead ++ " cbs=- " ++ " ".intercalate toks
+
+/-- `key@inc@obs/…`: what the eviction loops of one batch observed, in order -/
+def parseGroups (s : String) : List (Nat × Int × String) :=
+  if s == "-" || s == "" then [] else
+    (s.splitOn "/").filterMap fun g =>
+      match g.splitOn "@" with
+      | [k, inc, obs] => match k.toNat?, inc.toInt? with
+        | some k, some inc => some (k, inc, obs)
+        | _, _ => none
+      | _ => none
 
 partial def stepCache (st : CacheSt) (tl : Tally) (act : String) (ans : String) : CacheSt × Tally :=
   let a := splitWs act
@@ -392,7 +420,63 @@ partial def stepCache (st : CacheSt) (tl : Tally) (act : String) (ans : String) 
     let su := shouldUpdateOf g.validator
     let now := g.now
     let retS := (lookup r "ret").getD ""
+    -- an unobserved sub-step: run it muted, keep its coverage, drop its comparisons
+    let muted := fun (st : CacheSt) (tl : Tally) (act : String) (lead : String) =>
+      let (st', tlm) := stepCache { st with mute := true } tl act (muteAns ans lead)
+      ({ st' with mute := false }, { tl with cover := tlm.cover, ok := tl.ok })
+    -- the processor handles every buffered item of the model, the policy worker every queued batch
+    let rec drainLoop (st : CacheSt) (tl : Tally) (groups : List (Nat × Int × String)) (fuel : Nat) :
+        CacheSt × Tally × List (Nat × Int × String) :=
+      match fuel, st.c with
+      | 0, _ => (st, tl, groups)
+      | _, none => (st, tl, groups)
+      | fuel + 1, some c =>
+        match c.buf with
+        | it :: _ =>
+          let c0 := ({ c with buf := c.buf.tail } : Cache).admitPending
+          let (inc, obs, groups') := match it with
+            | .new k _ cost _ _ =>
+              let cost' := c0.internalCost cost
+              if cost' ≤ c0.lfu.maxCost && (c0.lfu.costs.get k).isNone && c0.lfu.roomLeft cost' < 0 then
+                match groups with
+                | (gk, ginc, gobs) :: rest => if gk == k then (ginc, gobs, rest) else ((0 : Int), "-", groups)
+                | [] => ((0 : Int), "-", groups)
+              else ((0 : Int), "-", groups)
+            | _ => ((0 : Int), "-", groups)
+          let desc := match it with | .wait _ => "wait" | _ => "-"
+          let (st', tl') := muted st tl s!"p.item inc={inc} obs={obs}" s!"desc={desc} ok=1"
+          drainLoop st' tl' groups' fuel
+        | [] =>
+          match c.pq with
+          | b :: _ =>
+            let (st', tl') := muted st tl s!"w.items {showNatList b}" "ok=1"
+            drainLoop st' tl' groups fuel
+          | [] => (st, tl, groups)
     match a with
+    | ["a.sync"] => finishStep st tl c "a.sync" [] cbsImpl snap g
+    | "a.drain" :: rest =>
+      let kv := kvs rest
+      let groups := parseGroups ((lookup kv "groups").getD "-")
+      let tl := tl.bump (if c.buf.length ≥ 2 then "a.drain.batch" else "a.drain.one")
+      let (st1, tl1, left) := drainLoop st tl groups 100000
+      let tl1 := if left.isEmpty then tl1 else tl1.guardAt s!"a.drain: {left.length} observed eviction loop(s) the model did not enter"
+      stepCache st1 tl1 "a.sync" ans
+    | "a.wait" :: id :: rest =>
+      let kv := kvs rest
+      let groups := parseGroups ((lookup kv "groups").getD "-")
+      let (st1, tl1) := muted st (tl.bump "a.wait") s!"c.wait {id}" "ret=blocked"
+      let (st2, tl2, _) := drainLoop st1 tl1 groups 100000
+      stepCache st2 tl2 s!"c.ret wait {id}" ans
+    | ["a.clear", id] =>
+      let (st1, tl1) := muted st (tl.bump "a.clear") s!"c.clear {id}" "ret=blocked"
+      let (st2, tl2) := muted st1 tl1 "p.clear" "ok=1"
+      stepCache st2 tl2 s!"c.ret clear {id}" ans
+    | ["a.close", id] =>
+      let (st1, tl1) := muted st (tl.bump "a.close") s!"c.close {id}" "ret=blocked"
+      let (st2, tl2) := muted st1 tl1 "p.clear" "ok=1"
+      let (st3, tl3) := muted st2 tl2 "p.stop" "ok=1"
+      let (st4, tl4) := muted st3 tl3 "w.stop" "ok=1"
+      stepCache st4 tl4 s!"c.ret close {id}" ans
     | ["c.insert", k, cf, v, cost, ttl, coster, only] =>
       match k.toNat?, cf.toNat?, v.toNat?, cost.toInt?, ttl.toNat?, coster.toInt?, only.toNat? with
       | some k, some cf, some v, some cost, some ttl, some coster, some only =>
